@@ -173,12 +173,12 @@ def denial_resolver_tier(ctx, thorough):
 
 
 def resolver_scope_observation(ctx):
-    """OBSERVATION (logged, no verdict): the audience clause in resolver (iterative) mode.  resolver.answer() replaces a
+    """The audience clause in resolver (iterative) mode (a verdict; C19_RESOLVER_SCOPE_STRICT=0 demotes it to an observation).  resolver.answer() replaces a
     positive answer's additional section with the request's OPT (subnet option, SCOPE 0), so the scope the authority
     declared is lost and the subnet-specific answer is stored under the shared key.  Set C19_RESOLVER_SCOPE_STRICT=1 to
     judge it (digest keys c19/resolver-scope-lost/<subnet>)."""
     import os
-    judge = os.environ.get("C19_RESOLVER_SCOPE_STRICT") == "1"
+    judge = os.environ.get("C19_RESOLVER_SCOPE_STRICT", "1") == "1"      # a verdict since the resolver keeps the authority's option
     res = ctx.go_driver("./c19", "TestResolverScopeObservation", {"judge": judge}, name="resolver_scope", timeout=300)
     cnt = res.get("counters", {})
     ctx.cov["replay"]["resolver_scope_observation"] = {"cases": res["cases"], "counters": cnt}
